@@ -10,7 +10,7 @@ def build(ctx):
     for cfg in ("asan", "plain"):
         d = ctx.builddir + "/" + cfg
         objs = B.build_lib(cfg, d)
-        exes["h_c17." + cfg] = B.build_harness(cfg, d, "h_c17." + cfg, ["h_c17.c"], objs)
+        exes["h_c17." + cfg] = B.build_harness(cfg, d, "h_c17." + cfg, ["h_c17.c"], objs, wraps=["my_crc32c_sse42_supported"])
     return exes
 
 
@@ -22,9 +22,15 @@ def run(ctx):
     ctx.fan(asan, "lenalign", 16 if th else 2, chunk=1, timeout=300)
     ctx.fan(plain, "lenalign", 16 if th else 2, chunk=1, timeout=300, prefix="plain.")   # -O2 code paths as shipped
     ctx.fan(asan, "bytepos", 28 if th else 7, chunk=1)
+    # the same workload in processes that run as an x86-64 CPU without SSE4.2 (the CPU-feature question is answered by a link-time shim):
+    # the library's own start-up selection must install the table-driven implementation and mtbl_crc32c must still be right
+    import os
+    nosse = dict(runner.san_env()); nosse["VERIF_CPU_WITHOUT_SSE42"] = "1"
+    ctx.fan(asan, "lenalign", 2, chunk=1, timeout=300, prefix="nosse.", env=nosse, tag="nosse-asan")
+    ctx.fan(plain, "lenalign", 2, chunk=1, timeout=300, prefix="nosse.", env=nosse, tag="nosse-plain")
     # buffers of 2^31-5 .. 2^32+8005 bytes (sparse zero-page mappings, -O2 build) run beside the rest
     ctx.fan_parallel([((asan, "random", 20000 if th else 240), dict(timeout=60, max_workers=11)),
-                      ((plain, "huge", 5), dict(chunk=1, timeout=300, max_workers=5, prefix="plain."))])
+                      ((plain, "huge", 6 if th else 5), dict(chunk=1, timeout=900, max_workers=6, prefix="plain."))])
     s = ctx.stats
     ev = s.get("calls.mtbl_crc32c", 0)
     if not s.get("host.sse42_supported"):
@@ -37,7 +43,8 @@ def run(ctx):
         evaluations=ev,
         distinct=s.get("lenalign.combinations", 0) - 8 * (16 if th else 2) + len(ctx.hashes),
         floors={"lenalign.combinations": 1101 * 8 * 2, "bytepos.cells": 2048, "rfc3720.vectors": 5, "calls.slicing": 10000,
-                "calls.forced_slicing": 70, "plain.huge.buffers_ge_2GiB": 5},
+                "calls.forced_slicing": 70, "plain.huge.buffers_ge_2GiB": 5, "nosse.dispatch.runs_as_cpu_without_sse42": 4, "nosse.dispatch.selected.slicing": 4, "nosse.calls.mtbl_crc32c": 10000,
+                **({"plain.huge.buffers_ge_32GiB": 1} if th else {})},
         exhaustive=False,
         extra={"implementations_covered": ["mtbl_crc32c", "my_crc32c_slicing"] + (["my_crc32c_sse42"] if s.get("host.sse42_supported") else []),
                "exhaustive_subspace": "lengths 0..1100 x alignments 0..7 (per content variant)"})
